@@ -93,7 +93,7 @@ macro_rules! check_group {
     (close, $bp:expr, $m:expr, $len:expr, $p:expr, $k:expr) => {{
         let fc = $bp.find_close($p);
         assert!(fc == d_find_close(&$m, $len, $p));
-        kani::cover!(matches!(fc, Some(c) if c >= 64 && $p < 60));
+        kani::cover!($len <= 64 || matches!(fc, Some(c) if c >= 64 && $p < 60));
         kani::cover!(fc.is_none() && $p < $len && bit(&$m, $p));
     }};
     (derived, $bp:expr, $m:expr, $len:expr, $p:expr, $k:expr) => {{
@@ -112,8 +112,8 @@ macro_rules! check_group {
         let enc = $bp.enclose($p);
         assert!(enc == d_enclose(&$m, $len, $p));
         assert!($bp.parent($p) == enc);
-        kani::cover!(matches!(fo, Some(o) if o < 60 && $p >= 64));
-        kani::cover!(matches!(enc, Some(o) if o < 60 && $p >= 64));
+        kani::cover!($len <= 64 || matches!(fo, Some(o) if o < 60 && $p >= 64));
+        kani::cover!($len <= 64 || matches!(enc, Some(o) if o < 60 && $p >= 64));
     }};
     (rank, $bp:expr, $m:expr, $len:expr, $p:expr, $k:expr) => {{
         assert!($bp.len() == $len);
@@ -134,15 +134,15 @@ macro_rules! check_group {
         assert!($bp.rank0($p) == lim - spec::rank1(&$m, lim));
         assert!($bp.select0($k) == d_select0(&$m, $len, $k));
         assert!($bp.total_ones() == spec::rank1(&$m, $len));
-        kani::cover!($p > 64 && $p < $len && ex < 0);
-        kani::cover!(matches!($bp.select0($k), Some(z) if z >= 64));
+        kani::cover!($len <= 65 || ($p > 64 && $p < $len && ex < 0));
+        kani::cover!($len <= 64 || matches!($bp.select0($k), Some(z) if z >= 64));
     }};
 }
 
 // ---- free functions (no index): arbitrary words incl. stray bits ---------------------------
 
 macro_rules! free_fns {
-    ($name:ident, $len:expr) => {
+    ($name:ident, $which:ident, $len:expr) => {
         #[kani::proof]
         #[kani::stub(alloc::vec::Vec::push, crate::stubs::push_no_grow)]
         #[kani::unwind(10)]
@@ -151,26 +151,40 @@ macro_rules! free_fns {
             let m = masked(&w, $len);
             let p: usize = kani::any();
             kani::assume(p <= 131);
-            let fc = trees::find_close(&w, $len, p);
-            // the free find_close treats a close at p as matching itself (documented)
-            if p < $len && !bit(&m, p) {
-                assert!(fc == Some(p));
-            } else {
-                assert!(fc == d_find_close(&m, $len, p));
-            }
-            assert!(trees::find_open(&w, $len, p) == d_find_open(&m, $len, p));
-            assert!(trees::enclose(&w, $len, p) == d_enclose(&m, $len, p));
-            kani::cover!(matches!(fc, Some(c) if c >= 64 && p < 60));
-            kani::cover!(fc.is_none() && p < $len && bit(&m, p));
+            free_fns!(@$which, w, m, p, $len);
         }
     };
+    (@close, $w:ident, $m:ident, $p:ident, $len:expr) => {
+        let fc = trees::find_close(&$w, $len, $p);
+        assert!(fc == d_find_close(&$m, $len, $p));
+        kani::cover!($len <= 64 || matches!(fc, Some(c) if c >= 64 && $p < 60));
+        kani::cover!(fc.is_none() && $p < $len && bit(&$m, $p));
+    };
+    (@open, $w:ident, $m:ident, $p:ident, $len:expr) => {
+        let fo = trees::find_open(&$w, $len, $p);
+        assert!(fo == d_find_open(&$m, $len, $p));
+        kani::cover!($len <= 64 || matches!(fo, Some(o) if o < 60 && $p >= 64));
+        kani::cover!(fo.is_none() && $p < $len && !bit(&$m, $p));
+    };
+    (@enclose, $w:ident, $m:ident, $p:ident, $len:expr) => {
+        let en = trees::enclose(&$w, $len, $p);
+        assert!(en == d_enclose(&$m, $len, $p));
+        kani::cover!(matches!(en, Some(o) if o < 60 && $p >= 64));
+        kani::cover!(en.is_none() && $p > 0 && $p < $len && bit(&$m, $p));
+    };
 }
-free_fns!(c04_free_len100, 100);
-free_fns!(c04_free_len128, 128);
-free_fns!(c04_free_len65, 65);
-free_fns!(c04_free_len64, 64);
-free_fns!(c04_free_len63, 63);
-free_fns!(c04_free_len1, 1);
+free_fns!(c04_free_close_len100, close, 100);
+free_fns!(c04_free_open_len100, open, 100);
+free_fns!(c04_free_enclose_len100, enclose, 100);
+free_fns!(c04_free_close_len128, close, 128);
+free_fns!(c04_free_open_len128, open, 128);
+free_fns!(c04_free_enclose_len128, enclose, 128);
+free_fns!(c04_free_close_len65, close, 65);
+free_fns!(c04_free_open_len65, open, 65);
+free_fns!(c04_free_enclose_len65, enclose, 65);
+free_fns!(c04_free_close_len63, close, 63);
+free_fns!(c04_free_open_len64, open, 64);
+free_fns!(c04_free_enclose_len63, enclose, 63);
 
 // ---- BalancedParens, every storage / select variant ----------------------------------------
 
@@ -234,6 +248,33 @@ bp_borrowed!(c04_bp_borrowed_open_len100, open, 100);
 bp_borrowed!(c04_bp_borrowed_rank_len100, rank, 100);
 bp_borrowed!(c04_bp_borrowed_close_len65, close, 65);
 bp_borrowed!(c04_bp_borrowed_rank_len65, rank, 65);
+
+/// One-word instances (cheap enough for the quick tier): same definitions, one
+/// arbitrary word, lengths 40 and 64.
+macro_rules! one_word {
+    ($name:ident, $grp:ident, $len:expr) => {
+        #[kani::proof]
+        #[kani::stub(alloc::vec::Vec::push, crate::stubs::push_no_grow)]
+        #[kani::unwind(10)]
+        fn $name() {
+            let w: [u64; 1] = kani::any();
+            let m = masked(&w, $len);
+            let bp = BalancedParens::new(vec![w[0]], $len);
+            let p: usize = kani::any();
+            kani::assume(p <= 66);
+            let k: usize = kani::any();
+            kani::assume(k <= 66);
+            check_group!($grp, bp, m, $len, p, k);
+            core::mem::forget(bp);
+        }
+    };
+}
+one_word!(c04_w1_close_len40, close, 40);
+one_word!(c04_w1_open_len40, open, 40);
+one_word!(c04_w1_rank_len40, rank, 40);
+one_word!(c04_w1_derived_len40, derived, 40);
+one_word!(c04_w1_close_len64, close, 64);
+one_word!(c04_w1_open_len64, open, 64);
 
 /// Select-support variants: deprecated sampled select and CS-Poppy at concrete rates.
 macro_rules! bp_select {
